@@ -760,7 +760,22 @@ func c06FinishedStays(c *Ctx, p *Prog) {
 	// R10 (b): the flag that makes engage refuse is set before the teardown starts.  Fini's teardown
 	// releases the screen mutex while it waits for the loops; a Resume() from another goroutine in that
 	// window must already see the screen as finished.
-	if fin := p.Fn("tcell:(*tScreen).finish"); fin != nil {
+	// (the teardown function is found by role: the one — named or a function literal handed to the
+	// Once — that sets the flag)
+	var fin *ssa.Function
+	for _, top := range p.modFns {
+		if top.Pkg != p.Tcell {
+			continue
+		}
+		for _, f := range withClosures(top) {
+			for _, st := range storesTo(f, "tcell.tScreen", "fini") {
+				if v, isB := constBool(st.Val); isB && v {
+					fin = f
+				}
+			}
+		}
+	}
+	if fin != nil {
 		var set ssa.Instruction
 		for _, st := range storesTo(fin, "tcell.tScreen", "fini") {
 			if v, isB := constBool(st.Val); isB && v {
